@@ -284,6 +284,10 @@ func (c *Ctx) genC11(i int, risky bool) c11File {
 	case 1:
 		goLine("// Copyright header")
 		goLine("// second comment line")
+		if r.Intn(2) == 0 {
+			goLine("/*\nCopyright the authors.\npermission is granted to use this file,\nincluding its imports.\n*/")
+			f.features = append(f.features, "block-comment-with-p-and-i-lines-before-package")
+		}
 		w("\npackage tmpl\n\n")
 		f.pkg = "tmpl"
 		f.features = append(f.features, "comments-before-package")
